@@ -68,7 +68,12 @@ def gen_items(rng, kind):
     n = rng.choice([0, 1, 2, 3, 5, 8])
     if kind == 'int':
         lo = rng.choice([0, 0, -4])
-        return [rng.randint(lo, 9) for _ in range(n)]
+        out = [rng.randint(lo, 9) for _ in range(n)]
+        if rng.random() < 0.25:
+            # equal but distinguishable numbers (2 and 2.0): Max / Min keep the FIRST of equal items,
+            # like max() / min(), and First / buckets keep what they saw, not something equal to it
+            out = [float(x) if rng.random() < 0.35 else x for x in out]
+        return out
     if kind == 'list':
         return [{'t': 'list', 'v': [rng.randint(0, 9) for _ in range(rng.randint(0, 3))]} for _ in range(n)]
     return [{'t': 'dict', 'v': [['k', rng.randint(0, 2)]] + ([[rng.choice(['a', 'b']), rng.randint(0, 9)]] if rng.random() < 0.7 else [])}
@@ -369,8 +374,32 @@ def run_case(case, gen_rng=None):
     leaf = _leaf_kinds(case['gspec'])
     desc = '+'.join(sorted(leaf)) + ('/Limit' if case['limit'] is not None else '') + f'/levels{_levels(case["gspec"])}'
 
+    produced = {}       # id(container built by an earlier evaluation) -> evaluation index (objects kept alive)
+    keep = []
+
+    def built(v, g):
+        """the containers Group itself builds for a result of shape g (dict levels, [value] leaves)"""
+        if g[0] == 'dict' and type(v) is dict:
+            yield v
+            subs = [sub for _, sub in g[1]]
+            if all(sub[0] in ('dict', 'list') for sub in subs) and len({sub[0] for sub in subs}) == 1:
+                for x in dict.values(v):
+                    yield from built(x, subs[0])
+        elif g[0] == 'list' and type(v) is list:
+            yield v
+
     def check(i, res, how):
         exp = reference(case, i)
+        if res[0] == 'ok':
+            # "accumulation state lives only for one evaluation": what one evaluation returns is never
+            # the object another evaluation returns (else filling one result fills the other)
+            for c in built(res[1], case['gspec']):
+                if id(c) in produced and produced[id(c)] != i:
+                    V('state-carried-over', f'result-container-shared-between-evaluations/{desc}',
+                      'a fresh container per evaluation', f'evaluation {i} returned a container of evaluation {produced[id(c)]}')
+                    break
+                produced[id(c)] = i
+            keep.append(res[1])
         if res[0] != 'ok':
             V('group-result', f'raised/{how}/{desc}', canon.canon(exp), canon.outcome(res, with_text=False))
         elif canon.canon(res[1]) != canon.canon(exp):
